@@ -27,10 +27,10 @@ def slices(q):
     if q:
         return [("core", 2, ["attr"], [444, 885, 842]), ("core", 1, ["loclist", "cfi"], [445, 884]),
                 ("refs", 2, ["attr"], [444, 885, 482, 843]), ("refs", 1, ["loclist", "cfi"], [445, 884]),
-                ("arith", 3, ["attr"], [444, 885])]
+                ("arith", 3, ["attr"], [444, 885]), ("far", 3, ["attr"], [444])]
     return [("core", 2, ["attr", "loclist", "cfi"], [444, 885, 842, 483, 845]),
             ("refs", 2, ["attr", "loclist", "cfi"], [444, 885, 482, 843, 845]),
-            ("arith", 4, ["attr"], [444, 885])]
+            ("arith", 4, ["attr"], [444, 885]), ("far", 3, ["attr", "loclist"], [444, 885])]
 
 
 def sig_of(case):
@@ -57,7 +57,7 @@ def run(ctx):
             obs = ctx.replay(b, r.cases_path, tag="exprw-%s-%s" % (cfg, prof))
             for i, case in enumerate(read_ndjson(r.cases_path)):
                 compare(ctx, case, obs.get(i), prof)
-                if prof == "dev" and i in (3, 400):
+                if prof == "dev" and i in (3, 400) and sl != "far":
                     ctx.sample({"case": case, "obs": obs.get(i)})
 
     # V
